@@ -18,6 +18,15 @@ func init() {
 }
 
 func AsmYCbCrToGray(c *image.YCbCr, pixels []float32) {
+	// The assembly loop indexes luma, chroma and the destination with the same
+	// (x, y) counted from zero, eight pixels per step: it is only valid for a
+	// 4:4:4 image at the origin whose luma stride equals its width.
+	w, h := c.Rect.Dx(), c.Rect.Dy()
+	if c.SubsampleRatio != image.YCbCrSubsampleRatio444 || c.Rect.Min != (image.Point{}) ||
+		c.YStride != w || w%8 != 0 || len(pixels) < w*h {
+		yCbCrToGrayAlt(c, pixels)
+		return
+	}
 	asmYCbCrToGray(pixels,
 		c.Rect.Min.X, c.Rect.Min.Y, c.Rect.Max.X, c.Rect.Max.Y,
 		c.Y, c.Cb, c.Cr, c.YStride, c.CStride)
